@@ -1,47 +1,7 @@
 ------------------------------- MODULE Print -------------------------------
-(***************************************************************************)
-(* The PRINT statement as a protocol machine (property C17).               *)
-(*                                                                         *)
-(* State: the item list still to be written, the text written so far (a   *)
-(* sequence of byte codes) and the running column of this statement.       *)
-(* One action per item kind, one for the end of the statement.             *)
-(*                                                                         *)
-(* An item is a record of uniform shape                                    *)
-(*   [k |-> "num"|"str"|"semi"|"comma", t |-> "I"|"L"|"S"|"D"|"T"|"",      *)
-(*    v |-> Int, b |-> byte sequence]                                       *)
-(* For t \in {I,L} the number text is computed here from v.  For t \in      *)
-(* {S,D} the numeral (without sign position and trailing blank) is carried *)
-(* in b: it is data validated by NumText (C16), not by this module.        *)
-(***************************************************************************)
-EXTENDS Integers, Sequences
-
-Zone == 14
-Blank == 32
-Minus == 45
-CR == 13
-LF == 10
-
-RECURSIVE PosDigits(_)
-PosDigits(n) == IF n < 10 THEN <<48 + n>> ELSE PosDigits(n \div 10) \o <<48 + (n % 10)>>
-
-\* digits of |n| for n < 0 without ever negating n (TLC integers are 32 bit and
-\* -(-2147483648) overflows)
-RECURSIVE NegDigits(_)
-NegDigits(n) == IF n > -10 THEN <<48 - n>>
-                ELSE LET d == (10 - (n % 10)) % 10
-                     IN NegDigits((n + d) \div 10) \o <<48 + d>>
-
-\* number text of an integer: sign position (blank or minus) + decimal digits
-IntText(n) == IF n >= 0 THEN <<Blank>> \o PosDigits(n) ELSE <<Minus>> \o NegDigits(n)
-
-\* number text of a float item whose unsigned numeral is given in b; v < 0 means negative
-FloatText(it) == (IF it.v < 0 THEN <<Minus>> ELSE <<Blank>>) \o it.b
-
-NumText(it) == IF it.t \in {"I", "L"} THEN IntText(it.v) ELSE FloatText(it)
-
-Pad(n) == [i \in 1..n |-> Blank]
-
-IsSep(it) == it.k \in {"semi", "comma"}
+(* The PRINT statement as a transition system (property C17); the constant-   *)
+(* level definitions (number text, zones, PrintText) are in PrintText.tla.    *)
+EXTENDS PrintText
 
 \* ---- the transition system ----------------------------------------------
 VARIABLES todo, buf, col, done
@@ -76,19 +36,4 @@ EndLine(lastSep) == /\ ~done /\ todo = <<>>
                        ELSE buf' = buf \o <<CR, LF>> /\ col' = 0
                     /\ done' = TRUE /\ UNCHANGED todo
 
-\* ---- the same meaning as a function (used by trace validation and by QB.tla)
-RECURSIVE Render(_, _)
-Render(items, acc) ==
-    IF items = <<>> THEN acc
-    ELSE LET it == Head(items)
-             nxt == CASE it.k = "num"   -> acc \o NumText(it) \o <<Blank>>
-                      [] it.k = "str"   -> acc \o it.b
-                      [] it.k = "semi"  -> acc
-                      [] it.k = "comma" -> acc \o Pad(Zone - (Len(acc) % Zone))
-                      [] OTHER -> acc
-         IN Render(Tail(items), nxt)
-
-PrintText(items) ==
-    LET body == Render(items, <<>>)
-    IN IF items = <<>> \/ ~IsSep(items[Len(items)]) THEN body \o <<CR, LF>> ELSE body
 =============================================================================
